@@ -238,6 +238,11 @@ def closure_probes():
     P.append(("same-name-different-levels",
               "function a(x){ return function(x2){ var x = x2 + 1; return function(){ return x; }; }; } log(a(1)(5)());"))
     # closures created in every syntactic position of a construct, and capturing every kind of loop variable
+    P.append(("own-name-shadowed-by-var", "function f(){ var f; return typeof f; } var h = function g(){ var g; return typeof g; }; log(f(), h());"))
+    P.append(("own-name-shadowed-by-param", "var h = function g(g){ return typeof g; }; function f2(f2){ return typeof f2; } log(h(), f2(), h(1), f2('s'));"))
+    P.append(("own-name-visible-and-assignable", "var h = function g(){ return typeof g; }; function f(){ return typeof f; } var k = function me(n){ return n ? me(n - 1) + 1 : 0; }; log(h(), f(), k(3));"))
+    P.append(("own-name-shadowed-by-inner-declaration", "var h = function g(){ function g(){ return 'inner'; } return g(); }; var h2 = function g2(){ var g2 = 5; return function(){ return g2; }; }; log(h(), h2()());"))
+    P.append(("own-name-captured-by-closure", "var h = function self(n){ return function(){ return typeof self + n; }; }; log(h(1)(), h(2)());"))
     P.append(("catch-param-named-like-captured-var", "function f(){ var e = 0; var g = function(){ return e; }; try { throw 5; } catch (e) { return e; } } log(f());"))
     P.append(("catch-param-closure-at-program-level", "var out = []; try { throw 7; } catch (q) { out.push(q); [1].forEach(function(){ out.push(q); }); } log(out);"))
     P.append(("catch-param-closure-in-callback", "function f(){ var out = []; try { throw 7; } catch (q) { [1, 2].forEach(function(v){ out.push(q + v); }); } return out; } log(f());"))
